@@ -58,6 +58,9 @@ func (o z4Op) extras() string {
 	if o.Dash {
 		s += ",digest spelled sha256-"
 	}
+	if o.Upper && o.Kind == "create" {
+		s += ",digest in upper case"
+	}
 	if o.Streamed {
 		s += ",streamed"
 	}
@@ -111,6 +114,7 @@ func z4Alphabet(thorough bool) []z4Op {
 		z4Op{Kind: "create", Name: "b", GGUF: 3, Template: z4Template},
 		z4Op{Kind: "from", Name: "b", Src: "a", Template: z4Template},
 		z4Op{Kind: "create", Name: "b", GGUF: 2, Dash: true},
+		z4Op{Kind: "create", Name: "b", GGUF: 1, Upper: true},
 		// the default namespace in another letter case, and a pull by short name from the default registry
 		z4Op{Kind: "create", Name: "Library/a", GGUF: 1},
 		z4Op{Kind: "pullh", Name: "a"},
@@ -180,6 +184,9 @@ func (w *z12World) z4Apply(o z4Op) (bool, string) {
 		d := z4GGUF(w, o.GGUF)
 		if o.Dash {
 			d = strings.Replace(d, ":", "-", 1)
+		}
+		if o.Upper {
+			d = "sha256:" + strings.ToUpper(strings.TrimPrefix(d, "sha256:"))
 		}
 		code, body := ztCall(w.h, "POST", "/api/create", api.CreateRequest{Model: o.Name, Files: map[string]string{"m.gguf": d}, System: o.System, Template: o.Template, License: z4License(o), Stream: &stream})
 		mcrt.WaitIdle(false)
